@@ -30,7 +30,8 @@ def xsdNames : List (String × String × String) := [
   ("PositiveInteger", "class PositiveInteger", "xs:positiveInteger"),
   ("UnsignedLong", "class UnsignedLong", "xs:unsignedLong"),
   ("UnsignedShort", "class UnsignedShort", "xs:unsignedShort"),
-  ("UnsignedInt", "class UnsignedInt", "xs:unsignedByte"),
+  ("UnsignedInt", "class UnsignedInt", "xs:unsignedInt"),
+  ("UnsignedByte", "class UnsignedByte", "xs:unsignedByte"),
   ("AnyURI", "class AnyURI", "xs:anyURI"),
   ("String", "alias str", "xs:string"),
   ("NormalizedString", "class NormalizedString", "xs:normalizedString")
